@@ -43,6 +43,7 @@ type workerCfg struct {
 	out      string
 	journal  string
 	maxViols int
+	isoEvery int // every n-th plan is also run alone in a pristine child process (0: never)
 }
 
 func runWorker(cfg workerCfg) int {
@@ -93,6 +94,19 @@ func runWorker(cfg workerCfg) int {
 					k = k[:80]
 				}
 				wo.Notes[k]++
+			}
+			// Every so often the same plan is also executed alone in a pristine child process: a
+			// different result means the library's answer depends on what this process did before
+			// (state kept across independent calls and policies).
+			if ho := historyOracle[cfg.prop]; ho != "" && wo.Runs > 3 && cfg.isoEvery > 0 && int(wo.Runs)%cfg.isoEvery == 0 && wo.ViolCount[ho+"|history"] == 0 {
+				wd := filepath.Dir(cfg.out)
+				if alone, err := execPlanFresh(wd, plan, cfg.prop); err == nil {
+					wo.Counters["pristine_process_comparisons"]++
+					if alone.Digest != res.Digest {
+						res.Violations = append(res.Violations, Violation{Property: cfg.prop, Oracle: ho, Site: "history",
+							Detail: "plan result differs between a pristine process and this worker, which ran other plans first", Plan: plan})
+					}
+				}
 			}
 			for _, v := range res.Violations {
 				v.StreamSeed, v.Idx, v.Shard, v.NShards = seed, idx, cfg.shard, cfg.nshards
@@ -354,6 +368,10 @@ func drive(cfg driveCfg) int {
 	for _, s := range seeds {
 		seedStrs = append(seedStrs, strconv.FormatUint(s, 10))
 	}
+	isoEvery := 7
+	if cfg.tier == "thorough" {
+		isoEvery = 40
+	}
 	outs := make([]WorkerOut, cfg.workers)
 	codes := make([]int, cfg.workers)
 	stderrs := make([][]byte, cfg.workers)
@@ -366,7 +384,8 @@ func drive(cfg driveCfg) int {
 			out := filepath.Join(cfg.workdir, fmt.Sprintf("worker-%d.json", w))
 			args := []string{"worker", "-prop", cfg.prop, "-tier", cfg.tier, "-seeds", strings.Join(seedStrs, ","),
 				"-shard", strconv.Itoa(w), "-nshards", strconv.Itoa(cfg.workers), "-count", strconv.Itoa(count),
-				"-per-seed", perSeed.String(), "-out", out, "-journal", filepath.Join(cfg.workdir, fmt.Sprintf("journal-%d.json", w))}
+				"-per-seed", perSeed.String(), "-out", out, "-journal", filepath.Join(cfg.workdir, fmt.Sprintf("journal-%d.json", w)),
+				"-iso-every", strconv.Itoa(isoEvery)}
 			to := 30 * time.Minute
 			if cfg.tier == "thorough" {
 				to = cfg.budget + 20*time.Minute
@@ -582,8 +601,15 @@ func readInstrReport(path string) interface{} {
 }
 
 func minimiseAndConfirm(cfg driveCfg, eng *Engine, v Violation) (Violation, bool, string) {
-	if v.Oracle == historyOracle[cfg.prop] && len(v.Prefix) > 0 {
-		return confirmHistory(cfg, v)
+	if v.Oracle == historyOracle[cfg.prop] && v.Oracle != "" {
+		if len(v.Prefix) == 0 && v.NShards > 0 {
+			for i := v.Shard; i < v.Idx; i += v.NShards {
+				v.Prefix = append(v.Prefix, json.RawMessage(mustJSON(eng.Gen(v.StreamSeed, i, cfg.tier))))
+			}
+		}
+		if len(v.Prefix) > 0 {
+			return confirmHistory(cfg, v)
+		}
 	}
 	fails := func(cand []byte) *Violation {
 		if eng.InProcessShrink {
@@ -728,7 +754,17 @@ func confirmHistory(cfg driveCfg, v Violation) (Violation, bool, string) {
 		return v, false, "the plan's result is not stable even alone (nondeterminism, not history dependence)"
 	}
 	full := len(prefix)
-	for i := len(prefix) - 1; i >= 0 && len(prefix) > 1; i-- {
+	// halve from the front while the difference persists, then drop single plans
+	for len(prefix) > 4 {
+		if cand := prefix[len(prefix)/2:]; differs(cand) {
+			prefix = cand
+		} else if cand := prefix[:len(prefix)/2]; differs(cand) {
+			prefix = cand
+		} else {
+			break
+		}
+	}
+	for i, tries := len(prefix)-1, 0; i >= 0 && len(prefix) > 1 && tries < 40; i, tries = i-1, tries+1 {
 		cand := append(append([]json.RawMessage{}, prefix[:i]...), prefix[i+1:]...)
 		if differs(cand) {
 			prefix = cand
